@@ -25,8 +25,9 @@ RULE = ('line sequences built by the harness from K messages (1..9 fragments, ra
         'lines, foreign NMEA lines and malformed lines, plus the boundary sequences of DESIGN.md section 5; every sequence goes '
         'through IterMessages, ByteStream, BinaryIOStream, FileReaderStream, SocketStream (scripted recv) and NMEAQueue, with and '
         'without a TagBlockQueue; a case = (front-end, tbq, terminator, line list); distinct = distinct such tuples; thorough tier '
-        'adds all arrival orders of small message sets')
-ASSUMPTIONS = ['loop-level theorems (C07_queue_step_eq, C07_runs_*, C03, C18) quantify over the per-line outcomes of '
+        'adds all arrival orders of small message sets' + sc.RULE_BOUNDED)
+ASSUMPTIONS = [sc.ASSUMPTION_BOUNDED,
+               'loop-level theorems (C07_queue_step_eq, C07_runs_*, C03, C18) quantify over the per-line outcomes of '
                'NMEASentenceFactory.produce / TagBlockQueue.put_sentence, and correspondence (a) feeds the extracted loops the REAL '
                'outcomes; the theorems of part 2 are over byte lines through the modelled parser and tag block queue, tied by '
                'correspondence (b) here and by the parser / tag-block harnesses of C05, C10, C16, C17',
